@@ -127,6 +127,14 @@ TYPES = {
     'KeyMaxLt': [('key_max_lt', '', [('key', BOOL), ('max_end_lt', U(64))])],
     'Counters': [('counters', '', [('last_updated', U(32)), ('total', U(64)), ('cnt2048', U(64)), ('cnt65536', U(64))])],
     'CreatorStats': [('creator_info', h('4'), [('mc_blocks', t('Counters')), ('shard_blocks', t('Counters'))])],
+    # ---- shard state: accounts:^ShardAccounts is a HashmapAugE 256 ShardAccount DepthBalanceInfo; libraries only in the empty form; custom (McStateExtra) absent
+    'DepthBalanceInfo': [('depth_balance', '', [('split_depth', ('le', 30)), ('balance', CC)])],
+    'ShardStateUnsplit': [('shard_state', h('9023afe2'), [
+        ('global_id', I(32)), ('shard_id', t('ShardIdent')), ('seq_no', U(32)), ('vert_seq_no', U(32)), ('gen_utime', U(32)), ('gen_lt', U(64)), ('min_ref_mc_seqno', U(32)),
+        ('out_msg_queue_info', CELL), ('before_split', BOOL), ('accounts', ref(('hmauge', 256, t('ShardAccount'), t('DepthBalanceInfo')))),
+        ('_r', ref(('seq', [('overload_history', U(64)), ('underload_history', U(64)), ('total_balance', CC), ('total_validator_fees', CC), ('libraries', ('const', 1, 0)),
+                            ('master_ref', maybe(t('BlkMasterInfo')))]))),
+        ('custom', maybe(CELL))])],
     # ---- block extra: InMsgDescr / OutMsgDescr / ShardAccountBlocks are HashmapAugE 256 dictionaries behind references
     'BlockExtra': [('block_extra', h('4a33f6fd'), [('in_msg_descr', ref(('hmauge', 256, t('InMsg'), t('ImportFees')))),
                                                  ('out_msg_descr', ref(('hmauge', 256, t('OutMsg'), CC))),
@@ -446,7 +454,7 @@ class G:
                     v.update(x)
                 else:
                     v[f] = x
-            if ty[1] == 'BlockExtra':
+            if ty[1] in ('BlockExtra', 'ShardStateUnsplit'):
                 v['custom'] = None        # custom:(Maybe ^McBlockExtra): McBlockExtra is not transcribed, so only the absent form is generated
             if ty[1] == 'ValidatorSet':
                 n = r.choice([1, 2, 5, 40])
